@@ -27,6 +27,8 @@ const (
 	FaultWriteError   = "write-error"   // the Write transfers nothing and fails
 	FaultWritePartial = "write-partial" // the Write transfers Part bytes and fails
 	FaultPeerClose    = "peer-close"    // the peer closes: pending data is still delivered, then io.EOF; writes fail
+	FaultGarbage      = "garbage"       // the bytes delivered by this Read are corrupted; the stream itself stays healthy
+	FaultHalfClose    = "half-close"    // the peer shuts down its sending side: reads hit io.EOF, writes keep succeeding
 )
 
 // ErrStreamFailed is returned by a stream after a fault.
@@ -57,9 +59,14 @@ type ScriptStream struct {
 	Fired      bool
 	FiredOp    int
 	FiredKind  string
-	armedFail  bool // read-partial: fail on the next read
-	MaxRead    int  // 0: unlimited; otherwise the largest chunk a Read returns
-	YieldEvery int  // inject runtime.Gosched() every n operations
+	armedFail  bool         // read-partial: fail on the next read
+	halfClosed bool         // half-close: reads return io.EOF, writes still succeed
+	garbleNext bool         // garbage: corrupt the next read that starts at a frame boundary (a Feed boundary)
+	fed        int          // total bytes fed so far
+	starts     map[int]bool // offsets (in fed bytes) at which a Feed call started
+	MaxRead    int          // 0: unlimited; otherwise the largest chunk a Read returns
+	CloseErr   bool         // Close reports an error (e.g. the owner had closed the connection already)
+	YieldEvery int          // inject runtime.Gosched() every n operations
 
 	// OnWrite is called inside Write, after the bytes were recorded and
 	// before Write returns, without the stream lock held.
@@ -107,7 +114,7 @@ func (s *ScriptStream) fire(k int, f *Fault) {
 // Read implements io.Reader.
 func (s *ScriptStream) Read(p []byte) (int, error) {
 	s.mu.Lock()
-	for len(s.in) == 0 && !s.inClosed && s.failed == nil && !s.closed && !s.armedFail {
+	for len(s.in) == 0 && !s.inClosed && s.failed == nil && !s.closed && !s.armedFail && !s.halfClosed {
 		s.waiters++
 		s.cond.Broadcast()
 		s.cond.Wait()
@@ -121,6 +128,10 @@ func (s *ScriptStream) Read(p []byte) (int, error) {
 		err := s.failed
 		s.mu.Unlock()
 		return 0, err
+	}
+	if s.halfClosed {
+		s.mu.Unlock()
+		return 0, io.EOF
 	}
 	if s.armedFail {
 		s.failed = ErrStreamFailed
@@ -148,6 +159,14 @@ func (s *ScriptStream) Read(p []byte) (int, error) {
 		case FaultPeerClose:
 			s.fire(k, f)
 			s.inClosed = true
+		case FaultHalfClose:
+			s.fire(k, f)
+			s.halfClosed = true
+			s.cond.Broadcast()
+			s.mu.Unlock()
+			return 0, io.EOF
+		case FaultGarbage:
+			s.garbleNext = true // fires when a read starts at a frame boundary
 		case FaultReadPartial:
 			s.fire(k, f)
 			s.armedFail = true
@@ -187,6 +206,14 @@ func (s *ScriptStream) Read(p []byte) (int, error) {
 		n = s.MaxRead
 	}
 	copy(p, s.in[:n])
+	if s.garbleNext && s.starts[s.consumed] {
+		// the peer sends a corrupt frame: the first bytes (the magic) are wrong
+		s.garbleNext = false
+		s.Fired, s.FiredOp, s.FiredKind = true, k, FaultGarbage
+		for i := 0; i < n && i < 4; i++ {
+			p[i] ^= 0xA5
+		}
+	}
 	s.in = s.in[n:]
 	s.consumed += n
 	s.cond.Broadcast()
@@ -248,6 +275,12 @@ func (s *ScriptStream) Write(p []byte) (int, error) {
 			s.cond.Broadcast()
 			s.mu.Unlock()
 			return 0, ErrStreamFailed
+		case FaultHalfClose:
+			s.fire(k, f)
+			s.halfClosed = true
+			s.cond.Broadcast()
+		case FaultGarbage:
+			s.garbleNext = true
 		}
 	}
 	s.out = append(s.out, append([]byte{}, p...))
@@ -274,7 +307,11 @@ func (s *ScriptStream) Close() error {
 	s.closed = true
 	s.closeCount++
 	s.cond.Broadcast()
+	fail := s.CloseErr
 	s.mu.Unlock()
+	if fail {
+		return errors.New("scriptstream: close failed (injected)")
+	}
 	return nil
 }
 
@@ -283,6 +320,11 @@ func (s *ScriptStream) Close() error {
 // Feed makes bytes available to the local reader.
 func (s *ScriptStream) Feed(b []byte) {
 	s.mu.Lock()
+	if s.starts == nil {
+		s.starts = map[int]bool{}
+	}
+	s.starts[s.fed] = true
+	s.fed += len(b)
 	s.in = append(s.in, b...)
 	s.cond.Broadcast()
 	s.mu.Unlock()
